@@ -260,7 +260,7 @@ Proof.
   assert (Hup : upcast_prop (mkprop (PFixed a) None) = mkprop (PFixed a) None).
   { unfold upcast_prop, upcast_arr. cbn [p_vals p_missing]. rewrite Hf. reflexivity. }
   split; [|split; [|split; [exact Hup|]]].
-  - unfold encodable. cbn [fst snd]. unfold create_props_metadata, encode_prop. rewrite Hup. cbn [p_vals p_missing]. rewrite Hv.
+  - unfold encodable. cbn [fst snd]. unfold create_props_metadata, vlen_dtypes_uniform, cpm_core, encode_prop. rewrite Hup. cbn [p_vals p_missing]. rewrite Hv.
     destruct (String.eqb name "") eqn:E; [apply String.eqb_eq in E; contradiction|]. cbn. eexists. eexists. split; reflexivity.
   - split; cbn [p_vals p_missing wf_pvals wf_missing]; [|exact I]. destruct Hsh as [[Hs _]|[k [Hs _]]]; rewrite Hs; eexists; reflexivity.
   - split; [reflexivity|]. exists a. split; [reflexivity | exact Ha].
